@@ -178,6 +178,37 @@ func (c *Cell) staticMethodSet() []Finding {
 	return fs
 }
 
+// staticRecordTypes checks that every call record has one field per parameter
+// with exactly the parameter's type (the static half of C04's "holding the
+// argument values field-by-field": a value converted to another type - a named
+// slice recorded as its underlying type, say - is not the argument any more).
+// Records with more fields than parameters are matched by type (argFields) and
+// cannot disagree; records with fewer show up when a call is compared.
+func (c *Cell) staticRecordTypes() []Finding {
+	var fs []Finding
+	mt := reflect.TypeOf(c.New())
+	for _, m := range c.methods {
+		if !isExported(m.Name) {
+			continue
+		}
+		acc, ok := mt.MethodByName(m.Name + "Calls")
+		if !ok || acc.Type.NumOut() != 1 || acc.Type.Out(0).Kind() != reflect.Slice {
+			continue
+		}
+		rec := acc.Type.Out(0).Elem()
+		if rec.Kind() != reflect.Struct || rec.NumField() != len(m.In) {
+			continue
+		}
+		for i, in := range m.In {
+			if rec.Field(i).Type != in {
+				fs = append(fs, Finding{Prop: "C04", Class: "record-field-type-differs", Detail: fmt.Sprintf("%s: record field %s of %sCalls() has type %s, parameter %d has type %s",
+					c.ID, rec.Field(i).Name, m.Name, rec.Field(i).Type, i, in)})
+			}
+		}
+	}
+	return fs
+}
+
 func isExported(name string) bool { return name != "" && name[0] >= 'A' && name[0] <= 'Z' }
 
 func propOfStatic(kind string) string {
